@@ -29,12 +29,35 @@ def waiters_line(hooks):
     return "waiters.replay ev=" + ";".join(evs)
 
 
+def keepalive_decisions(hooks):
+    """every logged decision of keepalive's check(): (last id, elapsed ms, timeout ms) and whether the same goroutine's next
+    keepalive event is the timeout"""
+    per = {}
+    for h in hooks or []:
+        m = re.match(r"(\d+) g(\d+) (keepalive:\S+) ?(.*)", h)
+        if m:
+            per.setdefault(m.group(2), []).append((m.group(3), [a for a in m.group(4).split(",") if a != ""]))
+    out = []
+    for g, evs in per.items():
+        for i, (label, args) in enumerate(evs):
+            if label == "keepalive:check" and len(args) >= 3:
+                nxt = evs[i + 1][0] if i + 1 < len(evs) else None
+                if nxt is None:
+                    continue          # the log ends here: outcome unknown
+                out.append((int(args[0]), int(args[1]), int(args[2]), "fail" if nxt == "keepalive:timeout" else "ok"))
+    return out
+
+
 def check(prop, cfg, results):
     """returns {'checked': n, 'mismatches': [text]}"""
     lines, names = [], []
+    kdec = []
     for r in results:
         if r.get("status") not in ("ok", "race") or not r.get("hooks"):
             continue
+        for d in keepalive_decisions(r["hooks"]):
+            if abs(d[1] - d[2]) > 2:      # the hook reads the clock a few microseconds before the decision does
+                kdec.append((r, d))
         # several clients in one process (cycle scenarios) interleave their logs: conformance needs one client
         if r["name"].startswith("c16/cycles") or r["name"] == "c13/early-push":
             continue
@@ -42,8 +65,25 @@ def check(prop, cfg, results):
             continue
         lines.append(waiters_line(r["hooks"]))
         names.append(f"{r['name']}[{r['transport']},v{r['version']},seed={r['seed']}]")
+    kmism, kchecked = [], 0
+    if kdec:
+        uniq = sorted({d for _, d in kdec})
+        pk = subprocess.run([os.path.join(L.LEAN, ".lake", "build", "bin", "oapdriver")],
+                            input="".join(f"keepalive.check last={a} elapsed={b} timeout={c}\n" for a, b, c, _ in uniq), capture_output=True, text=True, timeout=300)
+        outk = pk.stdout.splitlines()
+        if pk.returncode != 0 or len(outk) != len(uniq):
+            kmism.append("model driver failed on the keepalive decisions: " + (pk.stderr or "")[-300:])
+        else:
+            kchecked = len(kdec)
+            model = {d[:3]: o.strip() for d, o in zip(uniq, outk)}
+            for r, d in kdec:
+                if model[d[:3]] != d[3]:
+                    kmism.append(f"{r['name']}[{r['transport']},v{r['version']},seed={r['seed']}]: keepalive check with last ping id {d[0]}, {d[1]} ms since the last pong, "
+                                 f"timeout {d[2]} ms: the code decided `{d[3]}`, the model's checkFails says `{model[d[:3]]}`")
+                    if len(kmism) > 5:
+                        break
     if not lines:
-        return {"checked": 0, "mismatches": []}
+        return {"checked": kchecked, "mismatches": kmism, "keepalive_decisions": kchecked}
     p = subprocess.run([os.path.join(L.LEAN, ".lake", "build", "bin", "oapdriver")], input="\n".join(lines) + "\n",
                        capture_output=True, text=True, timeout=600)
     out = p.stdout.splitlines()
@@ -53,4 +93,41 @@ def check(prop, cfg, results):
     for n, o in zip(names, out):
         if not o.startswith("ok "):
             mism.append(f"{n}: {o}")
-    return {"checked": len(lines), "mismatches": mism, "summary": out[:5]}
+    return {"checked": len(lines) + kchecked, "mismatches": mism + kmism, "summary": out[:5], "keepalive_decisions": kchecked}
+
+
+def model_oracle(results):
+    """T1 for decision-logic views: scenarios emit `model.*` events carrying a driver line (the script they played) and
+    what the real client was observed to do; the Lean model is evaluated on the same script by the compiled driver.
+    Returns (fails, stats): one failing verdict per script on which model and implementation differ."""
+    items = []
+    for r in results:
+        if r.get("status") not in ("ok", "race"):
+            continue
+        for e in r.get("events") or []:
+            if str(e.get("k", "")).startswith("model.") and "line" in (e.get("f") or {}):
+                items.append((r, e["k"], e["f"]))
+    stats = {"scripts": len(items), "ambiguous": 0, "compared": 0}
+    if not items:
+        return [], stats
+    p = subprocess.run([os.path.join(L.LEAN, ".lake", "build", "bin", "oapdriver")],
+                       input="\n".join(f["line"] for _, _, f in items) + "\n", capture_output=True, text=True, timeout=300)
+    out = p.stdout.splitlines()
+    fails = []
+    if p.returncode != 0 or len(out) != len(items):
+        r = items[0][0]
+        return [{"key": f"model_driver@{r['name']}:{r['transport']}", "scenario": f"{r['name']}[{r['transport']},v{r['version']},seed={r['seed']}]",
+                 "detail": "the model driver failed on the scripts: " + (p.stderr or "")[-300:], "result": r}], stats
+    for (r, k, f), o in zip(items, out):
+        if f.get("ambiguous"):
+            stats["ambiguous"] += 1
+            continue
+        stats["compared"] += 1
+        want = o.split(" ; ")[0].strip()
+        if want != str(f.get("observed", "")).strip():
+            key = {"model.reconnect": "recovery_matches_model", "model.keepalive": "keepalive_matches_model",
+                   "model.dispatch": "dispatch_matches_model"}.get(k, k)
+            fails.append({"key": f"{key}@{r['name']}:{r['transport']}", "scenario": f"{r['name']}[{r['transport']},v{r['version']},seed={r['seed']}]",
+                          "detail": f"script `{f['line'][:700]}`: the model (Lean, proved against the property's clauses) does [{want}], the real client did [{f.get('observed')}]",
+                          "result": r})
+    return fails, stats
